@@ -58,6 +58,37 @@ func (f *frame) callContract(st *State, ins *ssa.Call, callee *ssa.Function, con
 	for i := 0; i < res.Len(); i++ {
 		results = append(results, ex.freshVal(st, sanitize(callee.Name())+"_res", res.At(i).Type(), false))
 	}
+	if con.Pure && res.Len() == 1 {
+		// a pure function is a function of its arguments: equal arguments give equal results
+		var argT []T
+		var sorts []string
+		okPure := true
+		for _, a := range args {
+			switch v := a.(type) {
+			case VInt:
+				argT = append(argT, v.T)
+				sorts = append(sorts, SInt)
+			case VBool:
+				argT = append(argT, v.T)
+				sorts = append(sorts, SBool)
+			case VSlice:
+				argT = append(argT, st.mem[v.R][0], v.Off, v.Len)
+				sorts = append(sorts, ex.sortOfTerm(st.mem[v.R][0]), SInt, SInt)
+			default:
+				okPure = false
+			}
+		}
+		if okPure {
+			switch r := results[0].(type) {
+			case VInt:
+				fn := ex.decls.fun("pure_"+sanitize(con.Key), sorts, SInt)
+				st.assume(tEq(r.T, app(fn, argT...)))
+			case VBool:
+				fn := ex.decls.fun("pure_"+sanitize(con.Key), sorts, SBool)
+				st.assume(tEq(r.T, app(fn, argT...)))
+			}
+		}
+	}
 	env2 := f.specEnvCall(callee, st, pre, args, free, results)
 	if env2.vars == nil {
 		env2.vars = map[string]Val{}
